@@ -71,6 +71,96 @@ func ruleTreeAccounting(c *Ctx) {
 	}
 }
 
+// ruleTreeLookups: two lookups the queries rest on. (1) A predecessor lookup
+// (DescendLessOrEqual) yields the region that starts at or before a key, not
+// necessarily one that contains it; only find() checks containment, so every
+// other query obtains its start item from find(). (2) RandomRegion computes the
+// candidate index interval of each key range afresh; an end index carried over
+// from the previous range truncates the candidates of an unbounded range.
+func ruleTreeLookups(c *Ctx) {
+	P := c.P
+	rule := c.Prop + "/tree-lookups"
+	treeF := P.Field("server/core", "regionTree", "tree")
+	desc := P.Method("pkg/btree", "BTree", "DescendLessOrEqual")
+	sites, _ := c.nonScaffoldCallers(desc)
+	n := 0
+	for _, s := range sites {
+		if fnPkgPath(s.Caller) != modPath+"/server/core" {
+			continue
+		}
+		recv := callRecv(s.Instr.Common())
+		if recv == nil || !isLoadOf(recv, treeF) {
+			continue
+		}
+		n++
+		name := fnName(outer(s.Caller))
+		ok := strings.HasSuffix(name, "regionTree).find") || strings.HasSuffix(name, "regionTree).getAdjacentRegions")
+		c.Check(ok, rule, "predecessor lookup in "+name, "only find() (which checks that the found region contains the key) and getAdjacentRegions() look up a predecessor directly", P.instrPos(s.Instr), "")
+	}
+	if n < 2 {
+		c.Undec(rule, "DescendLessOrEqual on region trees", "at least 2 sites", "", fmt.Sprint(n))
+	}
+	find := P.Method("server/core", "regionTree", "find")
+	contains := F(P.Method("server/core", "regionItem", "Contains"))
+	c.need(rule, find, "return of a found item", func(x ssa.Instruction) bool {
+		r, ok := x.(*ssa.Return)
+		return ok && len(r.Results) == 1 && !isNilConst(retVal(r, 0))
+	}, []Ev{guardCall("found.Contains(key)", true, callMatcher(contains))}, all, "find returns an item only if it contains the key")
+	// RandomRegion: per-range interval
+	rr := P.Method("server/core", "regionTree", "RandomRegion")
+	loops := loopsOf(rr)
+	intn := 0
+	for _, b := range rr.Blocks {
+		for _, ins := range b.Instrs {
+			cl, ok := ins.(*ssa.Call)
+			if !ok || cl.Call.StaticCallee() == nil || cl.Call.StaticCallee().Name() != "Intn" || len(cl.Call.Args) != 1 {
+				continue
+			}
+			var inner *loopInfo
+			for i := range loops {
+				if loops[i].blocks[b] && (inner == nil || len(loops[i].blocks) < len(inner.blocks)) {
+					inner = &loops[i]
+				}
+			}
+			if inner == nil {
+				continue
+			}
+			intn++
+			carried := false
+			seen := map[ssa.Value]bool{}
+			var walk func(v ssa.Value, depth int)
+			walk = func(v ssa.Value, depth int) {
+				if v == nil || seen[v] || depth > 6 {
+					return
+				}
+				seen[v] = true
+				switch x := v.(type) {
+				case *ssa.Phi:
+					if x.Block() == inner.header {
+						if _, isIter := x.Type().Underlying().(*types.Basic); isIter && x.Comment != "rangeindex" {
+							carried = true
+						}
+						return
+					}
+					for _, e := range x.Edges {
+						walk(e, depth+1)
+					}
+				case *ssa.BinOp:
+					walk(x.X, depth+1)
+					walk(x.Y, depth+1)
+				case *ssa.Convert:
+					walk(x.X, depth+1)
+				}
+			}
+			walk(cl.Call.Args[0], 0)
+			c.Check(!carried, rule, "candidate interval in "+fnName(rr), "start and end index of a key range are computed for that range (not carried over from the previous one)", P.instrPos(cl), "an index bound is a loop-carried variable")
+		}
+	}
+	if intn == 0 {
+		c.Undec(rule, "rand.Intn(end-start) in "+fnName(rr), "found", P.pos(rr.Pos()), "")
+	}
+}
+
 // ruleRoleIndexTable: which peers feed which per-store index. In SetRegion and
 // updateSubTreeStat every access of leaders/followers is keyed by a peer taken
 // from the voters (leaders on the `peer is the leader` edge, followers on the
@@ -313,6 +403,10 @@ func ruleBTreeRecycling(c *Ctx) {
 func init() {
 	register("C07", "Region lookups and per-store statistics match the cached region set", func(c *Ctx) {
 		c.Group("C07/size-accounting", "every tree insertion/deletion/in-place replacement moves totalSize by the region's size; tree and size are written only by the tree's own methods", func() { ruleTreeAccounting(c) })
+		c.Group("C07/heartbeat-fields", "(shared with C06) the region built from a heartbeat carries the peers, leader, pending peers and approximate size the per-store statistics are computed from", func() {
+			ruleHeartbeatFields(c, map[string]string{"meta": "GetRegion", "leader": "GetLeader", "pendingPeers": "GetPendingPeers", "downPeers": "GetDownPeers", "approximateSize": "GetApproximateSize", "approximateKeys": "GetApproximateKeys"})
+		})
+		c.Group("C07/tree-lookups", "queries start from find() (containment checked); random picks compute each range's index interval afresh", func() { ruleTreeLookups(c) })
 		c.Group("C07/role-index-table", "leaders/followers are fed from the voters (split on the leader test), learners from the learners, pending peers from the pending peers, both when inserting and when updating sizes", func() { ruleRoleIndexTable(c) })
 		c.Group("C07/index-discipline", "the shared item is re-pointed only after the old tree/sub-tree entries were removed; sub-tree rebuild is decided on leader, voters, learners and pending peers; range change on both keys; removals hit every index; mutators run under the BasicCluster write lock", func() { ruleRegionsInfoDiscipline(c) })
 		c.Group("C07/btree-recycling", "recycled btree nodes are cleared in every slice (items, children, rank indices); rank indices are maintained by the structural operations", func() { ruleBTreeRecycling(c) })
